@@ -14,6 +14,9 @@ CHECKS = {
  "C05": dict(level="exploration", ref="7/C05",
    text="Seeded search plus a systematic sweep over session state {valid envelope, no MAIL, every RCPT rejected} x size limit {off, below the total}: a message cut into 1-5 BDAT chunks (sizes 0..9000, LAST anywhere or missing, malformed variants) whose payloads contain end markers, bait commands, binary octets and LF-free runs around and above MaxLineLength, a NOOP marker after every chunk, lock-step or fully pipelined under drawn segmentation. Oracles: expected reply sequence from a reference chunk framer, no bait address at the backend, marker MAIL executed, exactly one Data call whose octets equal the concatenation of the accepted payloads with EOF only after LAST.",
    note="Trusts the reference chunk framer (written from RFC 3030 and the property statement); refusal replies are judged to be 5xx, not for their exact code; a BDAT without a usable size is sent without payload."),
+ "C06": dict(level="exploration", ref="7/C06",
+   text="Systematic sweep of every (N in 8..24, size in {N-2..N+2, ~10N}, DATA or BDAT in 1..4 chunks) plus seeded larger limits, chunk cut points, SIZE= parameters (N-1, N, N+1, 2^32-1, 11 and 20 digit values, malformed), read sizes and segmentation. Oracles: backend never reads more than N octets; a message over N is never presented as complete (non-EOF reader error, 552, envelope gone: a DATA probe is refused); SIZE>N is refused 552 without a Mail callback; a message of at most N octets arrives complete with EOF and 250 exactly as without a limit.",
+   note="Size is judged on messages without dot-stuffing (wire size = backend size). The backend propagates the reader's error as its verdict, as io.ReadAll-based backends do."),
  "C01": dict(level="exploration", ref="7/C01",
    text="Seeded search plus a systematic sweep of all 5461 bodies over the byte classes {'.',CR,LF,other} up to length 6, each run under a drawn transport segmentation, server short-read plan and backend read-size plan; the octets and terminal error the real dataReader hands the backend are compared with an RFC 5321 reference unstuffer. Sampling, not proof: evidence of byte-exactness over the explored streams x schedules.",
    note="Trusts: the reference unstuffer (cross-checked against a reference stuffer), Go's testing/synctest fake clock, go1.26.8 building go-smtp the same way go1.23.5 does."),
